@@ -92,8 +92,9 @@ var statusPool = []string{"passing", "warning", "critical", "maintenance", "unkn
 
 const tagPrefix = "urlprefix-"
 
-var routeTagPool = []string{"urlprefix-/foo", "urlprefix-x.com/bar", "urlprefix-:1234 proto=tcp", "urlprefix-/w weight=0.5", "urlprefix-Y.com/ strip=/a", "urlprefix-/foo"}
-var otherTagPool = []string{"v1", "blue", "", "prefix-/no", "URLPREFIX-/up"}
+// the last two cannot be expressed as a command: routecmd.build drops them on their own (d16ce3d)
+var routeTagPool = []string{"urlprefix-/foo", "urlprefix-x.com/bar", "urlprefix-:1234 proto=tcp", "urlprefix-/w weight=0.5", "urlprefix-Y.com/ strip=/a", "urlprefix-/foo", "urlprefix-/bw weight=abc", "urlprefix-/q opt=\"x"}
+var otherTagPool = []string{"v1", "blue", "", "prefix-/no", "URLPREFIX-/up", "v1", "blue", "a\"b"}
 
 func genTags(r *rand.Rand, spaced bool) []string {
 	var tags []string
@@ -725,7 +726,7 @@ func partB(run *vh.Run) {
 		insts := genInstances(r, 1+r.Intn(2), 2+r.Intn(2), false)
 		for j := range insts {
 			insts[j].name = "svc-a"
-			insts[j].tags = []string{routeTagPool[j%len(routeTagPool)], "v1"}
+			insts[j].tags = []string{routeTagPool[j%6], "v1"}
 		}
 		mk := func(first string, allDown bool) regState {
 			var cs []*api.HealthCheck
